@@ -115,7 +115,9 @@ func buildable(ts ...*T) (ok bool) {
 	return true
 }
 
-func skipCase(what string) Case { return Case{Human: what, Want: "skipped", Tags: []string{"skipped:unbuildable"}} }
+func skipCase(what string) Case {
+	return Case{Human: what, Want: "skipped", Tags: []string{"skipped:unbuildable"}}
+}
 
 func tyeqCase(a, b *T, tag string) Case {
 	if !buildable(a, b) {
